@@ -17,19 +17,53 @@ func VerifH_C01_pipelineRealJoin() {
 			FirstCheck: func(s string) bool { return strings.HasPrefix(s, "S") },
 			NextCheck:  func(s string) bool { return strings.HasPrefix(s, "C") }}
 	}
+	texts := map[int64]string{}   // record -> text of its join field ("" when it has none or it is not a string)
+	streams := map[int64]string{} // record -> stream
+	pipeline.VerifRealTimeouts = 0
 	pipeline.VerifRealDoc = func(i int, stream string) string {
 		head := `{"stream":"` + stream + `"`
+		streams[int64(i)] = stream
 		switch vf.Choose("line", vf.Param("LINES", 5)) {
 		case 0:
+			texts[int64(i)] = "S" + string(rune('0'+i))
 			return head + `,"log":"S` + string(rune('0'+i)) + `"}`
 		case 1:
+			texts[int64(i)] = "C" + string(rune('0'+i))
 			return head + `,"log":"C` + string(rune('0'+i)) + `"}`
 		case 2:
+			texts[int64(i)] = "x"
 			return head + `,"log":"x"}`
 		case 3:
 			return head + `,"log":7}`
 		}
 		return head + `}`
+	}
+	pipeline.VerifRealOut = func(e *pipeline.Event) {
+		if pipeline.VerifRealTimeouts > 0 {
+			return // a stream time-out ends a run early: where exactly is the subject of joinRuns
+		}
+		o := e.Offset
+		t := texts[o]
+		if len(t) == 0 || t[0] != 'S' {
+			return
+		}
+		// a start line leaves the action as the in-order concatenation of itself and the continuation
+		// lines that follow it directly in its stream
+		want := t
+		for j := o + 1; ; j++ {
+			if _, known := streams[j]; !known {
+				break
+			}
+			if streams[j] != streams[o] {
+				continue
+			}
+			c := texts[j]
+			if len(c) == 0 || c[0] != 'C' {
+				break
+			}
+			want += c
+		}
+		vf.Assert(e.Root.Dig("log").AsString() == want, "joined-event-is-the-in-order-concatenation-of-its-run")
 	}
 	pipeline.VerifH_C01_pipeline()
 }
